@@ -35,6 +35,7 @@ def write_project(sb, rng):
     add("src2/other.rs", rng.choice([small, big]))
     add("src/util/deep/more/z.rs", small)      # directories two and three levels below src/util (relative depth rules)
     add("tmpwork/w.rs", small)                  # a directory a global name list can forbid, also when it is the scan root
+    add("src/proj/p.rs", big)                   # a directory INSIDE the project that has the name of the project directory itself
     for rel, body in files.items():
         sb.write(rel, body)
     return files
@@ -60,6 +61,11 @@ def make_config(rng, anchored):
     if fam["scanner_exclude"]:
         # a subtree pattern, or a bare multi-component directory (pruned as a directory by the structure-aware walker)
         sc_ex.append(rng.choice([pat("vendor/**"), pat("vendor/**"), "src/gen" if anchored else "**/src/gen"]))
+    fam["root_named_exclude"] = rng.random() < 0.4
+    if fam["root_named_exclude"]:
+        # a pattern that names a directory called like the project directory itself (sandbox: .../proj): relative to the
+        # project root it can only refer to proj/ INSIDE the project, never to the root, however the root is spelled
+        sc_ex.append(rng.choice(["proj/**", "proj/**", "**/proj/**", "proj"]))
     t.append("exclude = [%s]" % ", ".join(json.dumps(x) for x in sc_ex))
     t += ["[content]", 'extensions = ["rs"]', "max_lines = %d" % lim]
     if fam["content_exclude"]:
@@ -101,6 +107,7 @@ def args_for(sp, proj, sub="src"):
 
 def canon_path(p, proj):
     p = p.replace("\\", "/")
+    proj = proj.replace("\\", "/")
     if p.startswith(proj + "/"):
         p = p[len(proj) + 1:]
     elif p == proj:
@@ -152,6 +159,12 @@ def run(ctx):
     evals = 0
     for k in range(n):
         with Sandbox() as sb:
+            if k % 6 == 5:
+                # the project lives below a directory whose NAME contains a backslash (legal on POSIX): the current
+                # directory and the absolute spelling carry it, the project-relative paths do not
+                sb.proj = os.path.join(sb.base, "team\\shared x", "proj")
+                os.makedirs(sb.proj)
+                hist["backslash_in_ancestor_name"] = hist.get("backslash_in_ancestor_name", 0) + 1
             files = write_project(sb, ctx.rng)
             anchored = ctx.rng.random() < 0.75
             cfg, fam = make_config(ctx.rng, anchored)
@@ -226,6 +239,34 @@ def run(ctx):
                     if d or rc != ref[0]:
                         fails.append(("baseline written under %s: run under %s differs from run under %s" % (wsp, sp, ref[2]), cfg, {"exit": (ref[0], rc), "diff": d[:6]}))
                 # with the baseline of the same state nothing recorded may still be failing
+            # fail-fast with that baseline: a grandfathered failure listed BEFORE a new violation must not stop the run,
+            # however the two targets are spelled (one worker, targets in the given order)
+            try:
+                recorded = sorted(k for k, v in json.load(open(bl)).get("files", {}).items() if isinstance(v, dict) and v.get("type", "content") == "content" and k.endswith(".rs"))
+            except (OSError, ValueError):
+                recorded = []
+            if recorded:
+                old = ctx.rng.choice(recorded)
+                sb.write("src/zz_new.rs", "".join("n%d = %d\n" % (i, i) for i in range(30)))
+                outcomes = {}
+                for style in ("plain", "dot", "abs", "dotslashslash"):
+                    sp_ = {"plain": lambda q: q, "dot": lambda q: "./" + q, "abs": lambda q: os.path.join(sb.proj, q), "dotslashslash": lambda q: ".//" + q}[style]
+                    for ff in ([], ["--fail-fast"]):
+                        rc, out, err = sb.run(exe, ["check", sp_(old), sp_("src/zz_new.rs"), "--format", "json", "--color", "never", "--no-sloc-cache", "--baseline", bl, *ff],
+                                              env={"RAYON_NUM_THREADS": "1"})
+                        evals += 1
+                        try:
+                            stt = {canon_path(r.get("path", ""), sb.proj): r.get("status") for r in json.loads(out).get("results", []) if r.get("violation_category") in (None, "content")}
+                        except ValueError:
+                            stt = {"<unparsable>": (out + err)[:200]}
+                        outcomes[(style, bool(ff))] = (rc, stt.get("src/zz_new.rs"))
+                ref_o = outcomes[("plain", False)]
+                bad = {"%s%s" % (k_[0], " --fail-fast" if k_[1] else ""): v for k_, v in outcomes.items() if v != ref_o}
+                if bad:
+                    fails.append(("baseline + fail-fast: targets [%s, src/zz_new.rs] (grandfathered first) give (exit, status of the new file) %s under the bare spelling without fail-fast, but %s" % (old, ref_o, bad),
+                                  cfg, {"baseline_written_under": wsp, "outcomes": {str(k_): v for k_, v in outcomes.items()}}))
+                hist["failfast_baseline_spellings"] = hist.get("failfast_baseline_spellings", 0) + 1
+                os.remove(os.path.join(sb.proj, "src/zz_new.rs"))
             # the same baseline with its keys re-spelled (older releases, hand edits, a run from another working
             # directory wrote ./x, absolute and doubled-separator keys): still honoured under every spelling
             try:
